@@ -200,6 +200,15 @@ class Observer:
                         res = refquic.unprotect(data, p, k, expected, allow_next_phase=alt)
                         if res:
                             self.nonstandard.append("v2 key update derived with label 'quic ku'")
+                    if res is None and p.type == "1rtt":
+                        # the sender may have moved more than one key generation since its last packet
+                        # (it followed the peer's update(s) without sending, then updated itself)
+                        kk = nxt
+                        for _ in range(3):
+                            kk = kk.next()
+                            res = refquic.unprotect(data, p, kk, expected)
+                            if res:
+                                break
                     if res:
                         used = res[4]
                         if p.type == "1rtt" and used is not k:
